@@ -51,6 +51,34 @@ thread_local! {
     static LEN: Cell<Option<usize>> = Cell::new(None);
 }
 
+/// counting allocator: current and peak live bytes, for the C07 allocation monitor
+struct Counting;
+static CUR: std::sync::atomic::AtomicUsize = std::sync::atomic::AtomicUsize::new(0);
+static PEAK: std::sync::atomic::AtomicUsize = std::sync::atomic::AtomicUsize::new(0);
+unsafe impl std::alloc::GlobalAlloc for Counting {
+    unsafe fn alloc(&self, l: std::alloc::Layout) -> *mut u8 {
+        use std::sync::atomic::Ordering::Relaxed;
+        let c = CUR.fetch_add(l.size(), Relaxed) + l.size();
+        PEAK.fetch_max(c, Relaxed);
+        std::alloc::System.alloc(l)
+    }
+    unsafe fn dealloc(&self, p: *mut u8, l: std::alloc::Layout) {
+        CUR.fetch_sub(l.size(), std::sync::atomic::Ordering::Relaxed);
+        std::alloc::System.dealloc(p, l)
+    }
+}
+#[global_allocator]
+static ALLOC: Counting = Counting;
+
+/// peak extra bytes allocated while running `f`
+fn peak_during<T>(f: impl FnOnce() -> T) -> (T, usize) {
+    use std::sync::atomic::Ordering::Relaxed;
+    let base = CUR.load(Relaxed);
+    PEAK.store(base, Relaxed);
+    let r = f();
+    (r, PEAK.load(Relaxed).saturating_sub(base))
+}
+
 struct SkipProbe;
 
 impl Deserialize<tags::Value> for SkipProbe {
@@ -245,12 +273,190 @@ fn cmd_gen(outdir: &str, n: u64) {
     std::fs::write(format!("{outdir}/stats.json"), stats).unwrap();
 }
 
+/// mutate a valid encoding: flips, truncation, insertion, deletion, length-field edits, splices
+fn mutate(r: &mut Rng, b: &mut Vec<u8>, other: &[u8]) {
+    let n = r.range(1, 3);
+    for _ in 0..n {
+        if b.is_empty() {
+            b.push(r.next() as u8);
+            continue;
+        }
+        let i = r.below(b.len() as u64) as usize;
+        match r.below(9) {
+            0 => b[i] ^= 1 << r.below(8),
+            1 => b[i] = r.next() as u8,
+            2 => b.truncate(i),
+            3 => b.insert(i, r.next() as u8),
+            4 => {
+                b.remove(i);
+            }
+            5 => b[i] = *r.pick(&[0u8, 1, 250, 251, 252, 253, 254, 255, 65, 66]),
+            6 => b[i] = b[i].wrapping_add(1),
+            7 => {
+                // splice a piece of another encoding
+                if !other.is_empty() {
+                    let j = r.below(other.len() as u64) as usize;
+                    let k = (j + r.range(1, 8) as usize).min(other.len());
+                    let piece = other[j..k].to_vec();
+                    b.splice(i..i, piece);
+                }
+            }
+            _ => b.extend_from_slice(&[r.next() as u8]),
+        }
+    }
+}
+
+fn cmd_mut(outdir: &str, n: u64) {
+    let seed = env_u64("VERIF_SEED", 1);
+    let mut r = Rng::new(seed);
+    let mut cases = std::io::BufWriter::new(std::fs::File::create(format!("{outdir}/cases.txt")).unwrap());
+    let mut imp = std::io::BufWriter::new(std::fs::File::create(format!("{outdir}/impl.txt")).unwrap());
+    let mut mon = std::io::BufWriter::new(std::fs::File::create(format!("{outdir}/monitor.txt")).unwrap());
+    let mut stream: BTreeMap<&'static str, u64> = BTreeMap::new();
+    let mut classes: BTreeMap<String, u64> = BTreeMap::new();
+    let mut distinct = std::collections::HashSet::new();
+    let mut nontrivial = 0u64;
+    let mut samples: Vec<String> = Vec::new();
+    let mut max_ratio = 0f64;
+    let mut prev: Vec<u8> = vec![0];
+
+    for i in 0..n {
+        verif_harness::valuegen::set_budget(if r.chance(1, 100) { 70_000 } else { 200 });
+        let which = r.below(10);
+        let bytes: Vec<u8> = if which < 9 {
+            let v = if r.chance(1, 2) {
+                let d = r.range(1, 5) as u32;
+                gen_tree(&mut r, d)
+            } else {
+                let d = r.range(1, 34) as u32;
+                gen_chain(&mut r, d)
+            };
+            let sv = if r.chance(1, 2) {
+                SerializedValue::serialize(&v)
+            } else {
+                SerializedValue::serialize_as::<tags::Value>(Legacy(&v))
+            };
+            let mut b = match sv {
+                Ok(sv) => sv.to_vec(),
+                Err(_) => vec![0],
+            };
+            if which < 3 {
+                *stream.entry("valid").or_default() += 1;
+            } else {
+                *stream.entry("mutated").or_default() += 1;
+                mutate(&mut r, &mut b, &prev);
+            }
+            b
+        } else {
+            *stream.entry("random").or_default() += 1;
+            let len = r.range(1, 24) as usize;
+            (0..len)
+                .map(|_| if r.chance(1, 2) { r.below(66) as u8 } else { r.next() as u8 })
+                .collect()
+        };
+        if bytes.is_empty() {
+            continue;
+        }
+        if bytes.len() < 4096 {
+            prev = bytes.clone();
+        }
+        let h = hex(&bytes);
+        let (dec, peak1) = peak_during(|| run_op("dec", &[&h]));
+        let (skip, peak2) = peak_during(|| run_op("skip", &[&h]));
+        let (split, peak3) = peak_during(|| run_op("split", &[&h]));
+        let kind = run_op("kind", &[&h]);
+        for (op, res) in [("dec", &dec), ("skip", &skip), ("split", &split), ("kind", &kind)] {
+            writeln!(cases, "{} {}", op, h).unwrap();
+            writeln!(imp, "{}", res).unwrap();
+        }
+        let class = format!(
+            "dec={} skip={}",
+            if dec.starts_with('!') { dec.as_str() } else { "Ok" },
+            if skip.starts_with('!') { skip.as_str() } else { "Ok" }
+        );
+        *classes.entry(class).or_default() += 1;
+        if distinct.insert(h.clone()) && bytes.len() >= 2 {
+            nontrivial += 1;
+        }
+        if i < 4 {
+            samples.push(if h.len() > 200 { format!("{}…", &h[..200]) } else { h.clone() });
+        }
+
+        // ---- monitor on the implementation alone (the property statement) ----
+        let mut fail = |what: &str| {
+            writeln!(mon, "C07 {} bytes={} dec={} skip={} split={} kind={}", what, h,
+                &dec[..dec.len().min(120)], skip, &split[..split.len().min(120)], kind).unwrap();
+        };
+        for (name, res) in [("dec", &dec), ("skip", &skip), ("split", &split), ("kind", &kind)] {
+            if res.starts_with("!PANIC") || res.starts_with("!APIS") {
+                fail(&format!("panic in {}", name));
+            }
+        }
+        let dec_succeeded = !dec.starts_with('!') || dec == "!TrailingData";
+        let skip_len: Option<usize> = skip.parse().ok();
+        if dec_succeeded {
+            match skip_len {
+                None => fail("decode succeeds but skip fails"),
+                Some(k) => {
+                    if !dec.starts_with('!') && k != bytes.len() {
+                        fail("skip length differs from the bytes decode consumed");
+                    }
+                    if dec == "!TrailingData" {
+                        let sub = hex(&bytes[..k.min(bytes.len())]);
+                        let d2 = run_op("dec", &[&sub]);
+                        if k >= bytes.len() || d2.starts_with('!') {
+                            fail("skip length is not the decoded prefix");
+                        }
+                    }
+                }
+            }
+        }
+        if let Some(k) = skip_len {
+            if k == 0 || k > bytes.len() {
+                fail("skip reports an impossible length");
+            } else {
+                let sub = hex(&bytes[..k]);
+                let d2 = run_op("dec", &[&sub]);
+                // skipping accepts what decoding accepts, except that it does not validate UTF-8
+                if d2.starts_with('!') && d2 != "!Invalid" {
+                    fail(&format!("skip accepts a prefix that decoding rejects with {}", d2));
+                }
+                // an opaque value that was split off re-decodes to the same value
+                let sp = run_op("split", &[&sub]);
+                if sp != sub {
+                    fail("split-off of a skippable value does not return exactly its bytes");
+                }
+            }
+        }
+        if !kind.starts_with('!') && kind != format!("{}", bytes[0]) {
+            fail("kind() differs from the first byte");
+        }
+        let peak = peak1.max(peak2).max(peak3);
+        let bound = 1024 * bytes.len() + 65536;
+        let ratio = peak as f64 / bytes.len() as f64;
+        if ratio > max_ratio {
+            max_ratio = ratio;
+        }
+        if peak > bound {
+            fail(&format!("allocation {} exceeds bound {}", peak, bound));
+        }
+    }
+
+    let mut stats = String::new();
+    write!(stats, "{{\"seed\":{},\"inputs\":{},\"distinct_nontrivial\":{},\"max_alloc_per_input_byte\":{:.1},", seed, n, nontrivial, max_ratio).unwrap();
+    write!(stats, "\"streams\":{{{}}},", stream.iter().map(|(k, v)| format!("\"{}\":{}", k, v)).collect::<Vec<_>>().join(",")).unwrap();
+    write!(stats, "\"result_classes\":{{{}}},", classes.iter().map(|(k, v)| format!("\"{}\":{}", k, v)).collect::<Vec<_>>().join(",")).unwrap();
+    write!(stats, "\"samples\":[{}]}}", samples.iter().map(|s| format!("\"{}\"", s)).collect::<Vec<_>>().join(",")).unwrap();
+    std::fs::write(format!("{outdir}/stats.json"), stats).unwrap();
+}
+
 fn main() {
     quiet_panics();
     let args: Vec<String> = std::env::args().collect();
     match args.get(1).map(String::as_str) {
         Some("gen") => cmd_gen(&args[2], args[3].parse().unwrap()),
         Some("run") => cmd_run(&args[2], &args[3]),
+        Some("mut") => cmd_mut(&args[2], args[3].parse().unwrap()),
         _ => {
             eprintln!("usage: codec gen <outdir> <n> | codec run <cases> <out>");
             std::process::exit(2);
